@@ -188,3 +188,26 @@ Theorem C14_signature_renaming_invariant : forall f g hW W n,
   sig (rename_g f g) hW (map (rename f) W) (rename f n) = sig g hW W n.
 Proof. exact sig_rename. Qed.
 Print Assumptions C14_signature_renaming_invariant.
+
+(* Histories on live IsomorphicGraph objects (suite "history"): the checker is
+   satisfied by the model, and an accepted observation answers every == with
+   true exactly when the contents at that moment are isomorphic, != with the negation. *)
+From RV Require Import Iso.History.
+Theorem C14_history_model : forall c, h_spec_ok c (h_model_obs c) = true.
+Proof. exact h_spec_ok_model. Qed.
+Print Assumptions C14_history_model.
+
+Theorem C14_history_reading : forall c o,
+  h_spec_ok c o = true -> answers (map (dedup triple_eqb) (h_graphs c)) (h_ops c) o.
+Proof. exact h_spec_reading. Qed.
+Print Assumptions C14_history_reading.
+
+(* Finding FC14b (unsound automorphism pruning in _traces): isomorphic graphs
+   (4-cycle + self-loop, two labellings) reported non-isomorphic.  The model's
+   "false" on this literal witness is a recorded observation of rdflib, replayed
+   by the corpus case fc14b_c4_plus_loop.json. *)
+Theorem C14_incomplete_refuted :
+  exists c, kf c = 2%N /\ iso (c_g1 c) (c_g2 c) /\ o_iso (model_obs c) = false
+            /\ spec_ok c (model_obs c) = false.
+Proof. exact fc14b_refuted. Qed.
+Print Assumptions C14_incomplete_refuted.
